@@ -657,20 +657,7 @@ def parseBufObs : List String → Option (Nat × List (Option (Nat × Bytes)))
     pure (n, hs)
   | [] => none
 
-/-- What C07 demands of a history: a watched (not stale) value changes only through a client operation
-*on that value* (or by being assigned anew). Returns the index of the first step that breaks it. -/
-def bufHistoryViolation (ops : List BufOp) (obs : List (List (Option (Nat × Bytes)))) : Option Nat :=
-  let rec go (i : Nat) (prev : List (Option (Nat × Bytes))) (ops : List BufOp) (obs : List (List (Option (Nat × Bytes)))) : Option Nat :=
-    match ops, obs with
-    | op :: ops', cur :: obs' =>
-      let touched : Option Nat := match op with
-        | .overwrite h _ _ | .appendTo h _ | .setNoBuf h _ | .assignBufTo h _ => some h
-        | _ => none
-      let bad := (List.range prev.length).any fun j =>
-        some j != touched && (match prev[j]?, cur[j]? with | some (some a), some (some b) => !(a.2 == b.2) | _, _ => false)
-      if bad then some i else go (i + 1) cur ops' obs'
-    | _, _ => none
-  go 0 [] ops obs
+-- `bufHistoryViolation` (what C07 demands of a history), `bufObs`, `bufRunObs`: Spec/BufSpec.lean
 
 /-- BH <initcap> | op ; op … | obs ; obs … -/
 def opBufferHistory (st : St) (parts : List (List String)) : String :=
@@ -681,14 +668,11 @@ def opBufferHistory (st : St) (parts : List (List String)) : String :=
     (match ic.toNat?, (splitSemi opToks).mapM parseBufOp, (splitSemi obsToks).mapM parseBufObs with
      | some initCap, some ops, some obs =>
        let run (cfg : BufCfg) : List (List (Option (Nat × Bytes))) :=
-         let rec go (s : BufSt) (ops : List BufOp) (obs : List (Nat × List (Option (Nat × Bytes)))) (acc : List (List (Option (Nat × Bytes)))) : List (List (Option (Nat × Bytes))) :=
-           match ops, obs with
-           | op :: ops', (nc, _) :: obs' =>
-             let s' := bufStep cfg s op nc
-             go s' ops' obs' (acc ++ [s'.handles.map fun h => if h.stale then none else some (h.win.cap, readWin s'.arrays h.win)])
-           | _, _ => acc
-         go (initBuf initCap) ops obs []
+         bufRunObs cfg (initBuf initCap) (ops.zip (obs.map (·.1)))
        let implObs := obs.map (·.2)
+       -- hypothesis of C07.history_accepted: client writes go through live (not stale) handles only
+       if !runLive { openCap := false } (initBuf initCap) (ops.zip (obs.map (·.1))) then
+         "dev-ok hypothesis runLive of history_accepted does not hold for this history" else
        let eqH (p q : Option (Nat × Bytes)) : Bool := match p, q with
          | none, none => true
          | some p, some q => p.2 == q.2 && (p.2.isEmpty || p.1 == q.1)
